@@ -68,13 +68,26 @@ func vfStubGetBatchConfig3(q *database.Queries, ctx context.Context, idx int32) 
 
 //verif:stub (*github.com/shutter-network/rolling-shutter/rolling-shutter/keyper/database.Queries).ExistsDecryptionKeyShare sql=existsDecryptionKeyShare
 func vfStubExistsShare(q *database.Queries, ctx context.Context, arg database.ExistsDecryptionKeyShareParams) (bool, error) {
+	if vfC03Neg.on {
+		return vfUFBool("own-share-exists", arg.EpochID), nil
+	}
 	return false, nil // P has not produced these shares yet
+}
+
+// switches for the negative harness (H_C02_shares_only_for_member_with_successful_dkg)
+var vfC03Neg struct {
+	on         bool
+	dkgMissing bool
+	dkgFailed  bool
 }
 
 //verif:stub (*github.com/shutter-network/rolling-shutter/rolling-shutter/keyper/database.Queries).GetDKGResult sql=getDKGResult
 func vfStubGetDKGResult3(q *database.Queries, ctx context.Context, eon int64) (database.DkgResult, error) {
-	if eon != vfC03.eon {
+	if eon != vfC03.eon || (vfC03Neg.on && vfC03Neg.dkgMissing) {
 		return database.DkgResult{}, pgx.ErrNoRows
+	}
+	if vfC03Neg.on && vfC03Neg.dkgFailed {
+		return database.DkgResult{Eon: eon, Success: false}, nil
 	}
 	return database.DkgResult{Eon: eon, Success: true, PureResult: []byte("pure")}, nil
 }
@@ -502,4 +515,56 @@ func H_C03_core_keys_step_stores_correct_keys() {
 		vfAssert(vfHasKey(key.IdentityPreimage), "key-stored-for-every-identity-of-the-message")
 	}
 	vfReach("stored")
+}
+
+
+// C02 (last clause, producer side): key shares are produced only for a keyper set the keyper
+// belongs to, whose key generation succeeded, for a non-empty trigger within the size limit, and
+// not again once all of them have been produced; the message carries the keyper's own index and
+// the keyper set index.
+func H_C02_shares_only_for_member_with_successful_dkg() {
+	n := 2 + vfLen("extra-keypers", vfParam("keypers", 3)-2)
+	instance, maxKeys := vfC03Setup(n)
+	c := &vfC03
+	vfC03Neg.on, vfC03Neg.dkgMissing, vfC03Neg.dkgFailed = true, vfBool("dkg-result-missing"), vfBool("dkg-failed")
+	vfC03StepMode = false
+	own := vfAny[common.Address]("own-address") // member or not
+	ownIndex, member := -1, false
+	for i, k := range c.keypers {
+		if k == own {
+			ownIndex, member = i, true
+		}
+	}
+	c.producer, c.pIndex = true, 0
+	if member {
+		c.pIndex = ownIndex
+	}
+	c.pResult = vfResultFor(c.pIndex)
+	c.stored = 0
+	k := vfLen("identities", vfParam("identities", 2))
+	var ids []identitypreimage.IdentityPreimage
+	allExist := k > 0
+	for i := 0; i < k; i++ {
+		id := identitypreimage.IdentityPreimage(vfBytesN("identity", 2))
+		ids = append(ids, id)
+		if !vfUFBool("own-share-exists", []byte(id)) {
+			allExist = false
+		}
+	}
+	ksh := &KeyShareHandler{InstanceID: instance, KeyperAddress: own, MaxNumKeysPerMessage: maxKeys}
+	msg, err := ksh.ConstructDecryptionKeyShares(context.Background(), database.Eon{Eon: c.eon, KeyperConfigIndex: c.cfgIndex}, ids)
+	if msg != nil {
+		vfAssert(err == nil, "message-without-error")
+		vfAssert(member, "shares-only-from-a-member-of-the-keyper-set")
+		vfAssert(!vfC03Neg.dkgMissing && !vfC03Neg.dkgFailed, "shares-only-after-a-successful-key-generation")
+		vfAssert(k >= 1 && uint64(k) <= maxKeys, "shares-only-for-a-non-empty-trigger-within-the-size-limit")
+		vfAssert(!allExist, "shares-not-produced-twice")
+		vfAssert(msg.KeyperIndex == uint64(ownIndex) && int64(msg.Eon) == c.cfgIndex && msg.InstanceId == instance, "message-carries-own-index-and-keyper-set-index")
+		vfAssert(len(msg.Shares) == k && c.stored == k, "one-share-per-identity-stored-before-sending")
+		vfReach("shares-produced")
+	} else {
+		vfAssert(err != nil && c.stored == 0, "refusal-is-an-error-and-stores-nothing")
+		vfReach("refused")
+	}
+	vfC03Neg.on = false
 }
